@@ -25,6 +25,7 @@ fn main() {
     }
     match args.prop.as_str() {
         "C41" => props::c41(&args),
+        "C42" => props::c42(&args),
         "C43" => props::c43(&args),
         "C44" => props::c44(&args),
         "C33" => props::c33(&args),
